@@ -300,4 +300,6 @@ CONTRACTS = [
     Contract('partly_loaded_objects', ['pony.orm.core:Attribute.__set__', 'pony.orm.core:Attribute.load', 'pony.orm.core:Attribute.update_reverse', 'pony.orm.core:Attribute.db_update_reverse',
                                        'pony.orm.core:Entity._db_set_', 'pony.orm.core:SetInstance.add', 'pony.orm.core:SetInstance.remove'], PL.configs, PL.case,
              [('both_ends_and_rows_agree_with_the_links_made', PL.spec)], level='bounded', bound=PL.BOUND),
+    Contract('one_to_one_reassignment', ['pony.orm.core:Attribute.__set__', 'pony.orm.core:Attribute.update_reverse', 'pony.orm.core:Entity._delete_'], PL.o2o_configs, PL.o2o_case,
+             [('both_ends_and_rows_agree_with_the_links_made', PL.spec)], level='bounded', bound=PL.O2O_BOUND),
 ]
